@@ -94,6 +94,21 @@ fn dump(kind: &str, lib: Option<&FileLibrary>, defs: &[String], reports: &Report
             id += 1;
         }
     }
+    // the premise "canonicalising a canonical path gives the path itself", on the
+    // real fs::canonicalize: every path handed to parse_file and every name of
+    // the FileLibrary is canonical, so canonicalising it again must return it
+    let mut not_idem: Vec<String> = Vec::new();
+    if let Some(lib) = lib {
+        let mut id = 0usize;
+        while let Ok(f) = lib.to_storage().get(id) {
+            let name: &str = f.name();
+            match std::fs::canonicalize(name) {
+                Ok(c) if c == PathBuf::from(name) => {}
+                _ => not_idem.push(esc(name)),
+            }
+            id += 1;
+        }
+    }
     let mut reps = Vec::new();
     for r in reports {
         let labels: Vec<String> = r
@@ -110,9 +125,10 @@ fn dump(kind: &str, lib: Option<&FileLibrary>, defs: &[String], reports: &Report
         ));
     }
     format!(
-        "{{\"kind\":{},\"nlog\":{},\"defs\":[{}],\"read\":[{}],\"adds\":[{}],\"files\":[{}],\"reports\":[{}]}}",
+        "{{\"kind\":{},\"nlog\":{},\"not_idempotent\":[{}],\"defs\":[{}],\"read\":[{}],\"adds\":[{}],\"files\":[{}],\"reports\":[{}]}}",
         esc(kind),
         log.len(),
+        not_idem.join(","),
         defs.iter().map(|d| esc(d)).collect::<Vec<_>>().join(","),
         read.join(","),
         adds.join(","),
